@@ -679,6 +679,58 @@ def rule_r8(chk, m):
            f"{mutable}; rule self-check on {n_examples} embedded examples fired as expected", m.rel)
 
 
+def rule_r9(chk, m):
+    import re
+    chk.rule("C09-R9", "an optional period / span parameter (default None) is tested for None-ness, never by truth value: Period.__bool__ and "
+             "Span.__bool__ answer 'needs no resolving', so a contextual bound such as start+1 is falsy and `x or default` would throw it away", floor=3,
+             shape_independent=True)
+    booly = {c.name for c in ast.walk(m.tree) if isinstance(c, ast.ClassDef) and any(isinstance(s_, ast.FunctionDef) and s_.name == "__bool__" for s_ in c.body)}
+    chk.ob("C09-R9", "dates[classes with __bool__]", {"Period", "Span"} <= booly, f"classes whose truth value is not None-ness: {sorted(booly)}", m.rel)
+    for q, f in m.functions():
+        a = f.args
+        pos = a.posonlyargs + a.args
+        defaults = [None] * (len(pos) - len(a.defaults)) + list(a.defaults)
+        for p_, d in list(zip(pos, defaults)) + list(zip(a.kwonlyargs, a.kw_defaults)):
+            if not (isinstance(d, ast.Constant) and d.value is None and p_.annotation is not None):
+                continue
+            if not (set(re.findall(r"[A-Za-z_]+", unparse(p_.annotation))) & (booly | {"Self"})):
+                continue
+            truthy = []
+            for x in ast.walk(f):
+                tests = []
+                if isinstance(x, (ast.If, ast.IfExp, ast.While)):
+                    tests.append(x.test)
+                if isinstance(x, ast.BoolOp):
+                    tests.extend(x.values)
+                if isinstance(x, ast.UnaryOp) and isinstance(x.op, ast.Not):
+                    tests.append(x.operand)
+                truthy += [t for t in tests if isinstance(t, ast.Name) and t.id == p_.arg]
+            chk.saw(m, q)
+            chk.ob("C09-R9", f"dates.{q}[{p_.arg}]", not truthy,
+                   f"optional {unparse(p_.annotation)} parameter is tested with `is None`" if not truthy else
+                   f"line {truthy[0].lineno}: `{p_.arg}` is used as a truth value; a period that still needs resolving (start+1, end-2) is falsy and is "
+                   "treated as if it had not been given", m.loc(truthy[0]) if truthy else m.loc(f))
+
+
+def rule_r10(chk, m):
+    chk.rule("C09-R10", "mixing frequencies is rejected rather than silently compared: every function of dates.py that reads .serial of an object "
+             "other than its receiver (a parameter) runs the frequency guard (_check_periods call or decorator) - comparing raw serials of "
+             "different frequencies gives an answer for periods that have nothing to do with each other", floor=8, shape_independent=True)
+    for q, f in m.functions():
+        ps = params(f)
+        if not ps:
+            continue
+        others = ps[1:] if ps[0] in ("self", "klass", "cls") else ps
+        reads = sorted({n.value.id for n in ast.walk(f) if isinstance(n, ast.Attribute) and n.attr == "serial" and isinstance(n.value, ast.Name) and n.value.id in others})
+        if not reads:
+            continue
+        guard = any(dotted(d) == "_check_periods_decorator" for d in f.decorator_list) or \
+            any(isinstance(c, ast.Call) and dotted(c.func) == "_check_periods" for c in ast.walk(f))
+        chk.saw(m, q)
+        chk.ob("C09-R10", f"dates.{q}[{','.join(reads)}.serial]", guard,
+               "frequency guard present" if guard else f"reads {reads[0]}.serial without any frequency check: periods of another frequency are compared by raw serial", m.loc(f))
+
+
 def run(chk):
     m = chk.repo.mod(MOD)
     chk.guard(rule_r1, chk, m)
@@ -689,6 +741,8 @@ def run(chk):
     chk.guard(rule_r6, chk, m)
     chk.guard(rule_r7, chk, m)
     chk.guard(rule_r8, chk, m)
+    chk.guard(rule_r9, chk, m)
+    chk.guard(rule_r10, chk, m)
     from .. import unused as _unused
     chk.guard(_unused.apply, chk, "C09-R91")
     from .. import args as _args
